@@ -92,7 +92,7 @@ H_ORDER = "every query of a sequence on one TimeSeries returns exactly the %s of
           "(minima = mirrored maxima of the negated signal, threshold negated too; window = that part of the signal), " \
           "at the times of those positions, whatever was queried before"
 H_READBACK = "returned extrema are the series' signal values at the reported times (signal and times read back from the series after the call)"
-H_ASC = "maxima / minima in ascending order"
+H_ASC = "maxima in ascending order (minima: the mirrored ascending maxima of the negated signal, i.e. -minima ascending)"
 H_MAXMIN = "TimeSeries.max/min are the extreme signal values (of the window), whatever was queried before"
 H_INTACT = "a peak query leaves the signal and times of the series (and of the arrays / other series it was built from) as they were"
 
@@ -215,7 +215,7 @@ def eval_history(h, on_fail):
     src_x, src_t = x0.copy(), t0.copy()
     objs = [TimeSeries("s%d" % k, src_t, src_x) for k in range(h["objects"])]      # all built from the same arrays
     pos = {float(v): i for i, v in enumerate(t)}
-    seen = []
+    seen = [None] * len(h["ops"])
     for step, op in enumerate(h["ops"]):
         ts = objs[op["obj"]]
         twq = None if op["twin"] is None else (Fraction(op["twin"][0]), Fraction(op["twin"][1]))
@@ -234,7 +234,6 @@ def eval_history(h, on_fail):
                 e = max(xw) if op["q"] == "max" else min(xw)
                 if Fraction(float(v)) != e:
                     fail(H_MAXMIN, str(e), float(v))
-                seen.append(None)
             else:
                 thr = None if op["threshold"] is None else Fraction(op["threshold"])
                 ref = [(v, i + off) for v, i in ref_extrema(xw, op["q"], op["local"], thr)]
@@ -246,11 +245,10 @@ def eval_history(h, on_fail):
                     m, tm = np.asarray(m), np.asarray(tm)
                     if m.shape != tm.shape or any(float(v) not in pos for v in tm):
                         fail(H_ORDER % what, [(str(a), str(t[b])) for a, b in ref], [m.tolist(), tm.tolist()])
-                        seen.append(None)
                     else:
                         ind = [pos[float(v)] for v in tm]
                         got = canon(m, ind)
-                        seen.append(got)
+                        seen[step] = got
                         if got != ref:
                             fail(H_ORDER % what, [(str(a), b) for a, b in ref], [(str(a), b) for a, b in got])
                         xn, tn = np.asarray(ts.x), np.asarray(ts.t)
@@ -260,10 +258,11 @@ def eval_history(h, on_fail):
                 else:
                     m = np.asarray(res)
                     got = sorted(Fraction(float(v)) for v in m)
-                    seen.append(got)
+                    seen[step] = got
                     if got != sorted(v for v, _ in ref):
                         fail(H_ORDER % what, [str(a) for a, _ in ref], [str(a) for a in got])
-                if any(b < a for a, b in zip(m, m[1:])):
+                ma = m if op["q"] == "maxima" else -m
+                if any(b < a for a, b in zip(ma, ma[1:])):
                     fail(H_ASC, "ascending", m.tolist())
                 if op["scribble"]:                      # the caller re-uses the arrays it was handed
                     for arr in (res if op["rettime"] else (res,)):
@@ -271,7 +270,6 @@ def eval_history(h, on_fail):
                             arr[...] = 777.0
         except Exception as e:                          # noqa
             fail("the query returns (no exception)", "result", "err:%s:%s" % (type(e).__name__, str(e)[:80]))
-            seen.append(None)
         for k, o in enumerate(objs):
             if not (np.array_equal(np.asarray(o.x), x0) and np.array_equal(np.asarray(o.t), t0)):
                 fail(H_INTACT, dict(x=x0.tolist()[:40]), dict(series=k, x_now=np.asarray(o.x).tolist()[:40], t_now=np.asarray(o.t).tolist()[:40]))
@@ -291,7 +289,9 @@ def run(chk):
                         "order among equal-valued maxima is unspecified in the implementation (argsort): compared as sorted (value, position)"]
     rng = chk.rng
     drv = core.Driver()
-    cases = [[Fraction(v) for v in c["x"]] for c in core.load_corpus("C14")] + list(gen(chk))
+    corpus = core.load_corpus("C14")
+    cases = [[Fraction(v) for v in c["x"]] for c in corpus if c.get("kind") != "history"] + list(gen(chk))
+    hists = [c for c in corpus if c.get("kind") == "history"] + list(gen_histories(chk))
     lines, meta = [], []
     for x in cases:
         xs = " ".join(rat(v) for v in x)
@@ -301,8 +301,15 @@ def run(chk):
             lines.append("pk.max %s %s %s" % (loc, ts, xs)); meta.append((x, "max", loc, thr))
         lines.append("pk.min %s %s %s" % (rng.choice(["global", "local"]), ts, xs)); meta.append((x, "min", lines[-1].split()[1], thr))
         lines.append("pk.freq 1 %s | %s" % (" ".join(str(i) for i in range(len(x))), xs)); meta.append((x, "freq", None, None))
+    n_single = len(lines)
+    hreq = []
+    for h in hists:
+        r = hist_requests(h)
+        r = [q for q in r if q is not None]
+        hreq.append(list(range(len(lines), len(lines) + len(r))))
+        lines += r
     outs = drv.run(lines)
-    for (x, what, loc, thr), o in zip(meta, outs):
+    for (x, what, loc, thr), o in zip(meta, outs[:n_single]):
         xf = np.array([float(v) for v in x])
         inp = dict(x=[str(v) for v in x], what=what, mode=loc, threshold=None if thr is None else str(thr))
         chk.count("pk." + what)
@@ -355,6 +362,35 @@ def run(chk):
             if canon(-m2, i2) != im:
                 chk.fail("minima are the mirrored maxima of the negated signal (threshold negated too)", inp,
                          [(str(a), b) for a, b in canon(-m2, i2)], [(str(a), b) for a, b in im])
+    # ---- query histories: the clauses hold for every call of a sequence on the same object ----------------------------------------
+    for h, rq in zip(hists, hreq):
+        fails = []
+        seen = eval_history(h, lambda oracle, step, e, o: fails.append((oracle, step, e, o)))
+        for oracle, step, e, o in fails:
+            chk.fail(oracle, dict(h, ops=h["ops"][:step + 1]), e, o, step=step)
+        chk.count("history")
+        chk.count("history.step", len(h["ops"]))
+        chk.dist("history:steps=%d:objects=%d" % (min(len(h["ops"]), 4), h["objects"]))
+        t = [Fraction(v) for v in h["t"]]
+        it = iter(rq)
+        prior = set()
+        for step, op in enumerate(h["ops"]):
+            if op["q"] not in ("maxima", "minima"):
+                continue
+            li = next(it)
+            if seen[step] is None or fails:
+                prior.add(op["obj"])
+                continue
+            twq = None if op["twin"] is None else (Fraction(op["twin"][0]), Fraction(op["twin"][1]))
+            off = window_of(t, twq)[0]
+            mod = sorted((v, i + off) for v, i in parse(outs[li]))
+            if not op["rettime"]:
+                mod = sorted(v for v, _ in mod)
+            if mod != seen[step]:
+                chk.disagree("pk.history", dict(h, ops=h["ops"][:step + 1]), [str(a) for a in mod], [str(a) for a in seen[step]])
+            if seen[step] and op["obj"] in prior:
+                chk.nontriv(("hist", tuple(h["x"]), tuple(h["t"]), h["objects"], repr(h["ops"][:step + 1])))
+            prior.add(op["obj"])
     # ---- series-level entry points and affine map -------------------------------------------------------------------------------
     sub = rng.sample(cases, min(len(cases), 400 if chk.quick else 4000))
     for x in sub:
